@@ -4,6 +4,7 @@ import os
 import shutil
 import struct
 import tempfile
+import time
 
 from vlib import basic, translated
 
@@ -13,7 +14,9 @@ RULE = ('histories on every SCREEN mode of every adapter configuration (cga, ega
         'then PEEK, POKE, BSAVE, BLOAD, OUT plane registers at boundary-dense and random addresses (row ends, bank ends, '
         'page ends, last page, below the segment, unmapped tails) with lengths that start mid-row and cross rows, banks '
         'and pages; session A uses block operations and BASIC statements, its twin B the same history one byte at a '
-        'time; a case is one operation of a history; non-trivial = distinct (mode, op kind, address, length)')
+        'time; mode-switch histories (leave a mode and re-enter it with and without video memory access in between, '
+        'WIDTH changes, SCREEN n,,a,v in mode n, OUT to the plane registers before/after, CLEAR ,,,n on Tandy/PCjr) '
+        'with the registers expected to reset exactly when a new mode object is built; a case is one operation of a history; non-trivial = distinct (mode, op kind, address, length)')
 EXPLANATION = ('theorems (PcbV.Props.C34): for every graphics mode of the regenerated mode table, all page counts, addresses '
                'and lengths the repaired _walk_memory yields exactly the units whose _get_coords are on screen, each with its '
                'own coordinates (walk_is_bytewise, incl. the factor-2 plane walks of Tandy SCREEN 6), every run stays inside '
@@ -21,7 +24,9 @@ EXPLANATION = ('theorems (PcbV.Props.C34): for every graphics mode of the regene
                'covered content in EVERY mode of the table (text, CGA-packed, EGA-planar and Tandy-6: the recombination of '
                'the two Tandy-6 planes into the interleaved byte array is proved, PcbV.Lemmas.VideoT6); pack/unpack round '
                'trips, POKE-then-PEEK per mapper, Tandy-6 byte pairs cover the same pixels and their planes are independent; '
-               'counterexamples for the walk as it was (D11 and two-bank modes), the old Tandy-6 odd-address reader and the '
+               'mode switches (switchMode): a SCREEN naming the current mode keeps screen and registers, another name gives fresh '
+               'registers and erased pages, away-and-back resets the registers and a POKE is read back (away_and_back_resets_registers, '
+               'reentry_poke_then_peek); counterexamples for the walk as it was (D11 and two-bank modes), the old Tandy-6 odd-address reader and the '
                'old text mapper. Correspondence: every operation result and the touched pixel rows of real Sessions against '
                'the compiled model. Oracle: documented memory layout of each mode applied in the pixel->address direction '
                'to the page buffers.'
@@ -265,6 +270,8 @@ class Real(object):
         adapter, kw, screen, width = cfg
         self.block, self.tmp = block, tmp
         self.session = basic.new_session(devices={'C': tmp}, current_device='C', **kw)
+        # with the Tandy syntax BSAVE repeats the header after the data and BLOAD drops the last 7 bytes
+        self.tandy_syntax = kw.get('syntax') == 'tandy'
         self.problems = []
         if screen == 0:
             self.run(b'SCREEN 0:WIDTH %d:CLS' % width)
@@ -272,6 +279,21 @@ class Real(object):
             self.run(b'SCREEN %d:CLS' % screen)
         self.memory = self.session._impl.all_memory
         self.display = self.session._impl.display
+
+    def switch(self, screen, width):
+        """SCREEN / WIDTH statement(s) leading to the given mode; no video memory is touched"""
+        if screen == 0:
+            self.run(b'SCREEN 0,,0,0:WIDTH %d' % width)
+        else:
+            self.run(b'SCREEN %d,,0,0' % screen)
+
+    def pages(self, screen, apage, vpage):
+        """SCREEN statement naming the current mode with page arguments"""
+        self.run(b'SCREEN %d,,%d,%d' % (screen, apage, vpage))
+
+    def clear_video(self, size):
+        """CLEAR ,,,n (PCjr/Tandy syntax)"""
+        self.run(b'CLEAR ,,,%d' % size)
 
     def close(self):
         self.session.close()
@@ -347,7 +369,8 @@ class Real(object):
             return
         seg, off = self.split(addr, rng, len(data))
         with open(os.path.join(self.tmp, 'L.BIN'), 'wb') as f:
-            f.write(b'\xfd' + struct.pack('<HHH', seg, off, len(data)) + bytes(data) + b'\x1a')
+            head = b'\xfd' + struct.pack('<HHH', seg, off, len(data))
+            f.write(head + bytes(data) + (head if self.tandy_syntax else b'') + b'\x1a')
         self.run(b'BLOAD "L.BIN",&H%X' % off)
 
     def out(self, port, v):
@@ -525,6 +548,9 @@ def run_history(ctx, cfg, ops, use_model=True, label=''):
         orc = Oracle(lay, np)
         cur = Screen(lay, A.session)
         mlines, mouts = [], []     # model ops / implementation results
+        first_mode, first_np = mode_name, np
+        screen_now, width_now = screen, (width if screen == 0 else 0)
+        vmem = kw.get('video_memory', 262144)
 
         failed = []
 
@@ -557,6 +583,44 @@ def run_history(ctx, cfg, ops, use_model=True, label=''):
                 B.text(page, row, col, fg, bg, chars.encode())
                 cur = Screen(lay, A.session)
                 m('W:%d:%d:%d:%d:%s' % (page, row, col, cur.attrs[page][row][col], chars.encode().hex()))
+            elif kind in 'XVC':
+                # mode switches.  X: SCREEN/WIDTH to a mode; V: SCREEN naming the current mode with page
+                # arguments; C: CLEAR ,,,n (PCjr/Tandy).  A switch to another mode (and a CLEAR that changes the
+                # video memory size) builds a new mode object: fresh plane registers, erased pages; a SCREEN
+                # statement naming the current mode keeps both.  No video memory is accessed here.
+                rebuilt = forced = False
+                if kind == 'X':
+                    target = (op[1], op[2] if op[1] == 0 else 0)
+                    for R_ in (A, B):
+                        R_.switch(op[1], op[2])
+                    rebuilt = target != (screen_now, width_now)
+                    if rebuilt:
+                        screen_now, width_now = target
+                elif kind == 'V':
+                    for R_ in (A, B):
+                        R_.pages(screen_now, min(op[1], np - 1), min(op[2], np - 1))
+                else:
+                    for R_ in (A, B):
+                        R_.clear_video(op[1])
+                    if op[1] != vmem:
+                        vmem = op[1]
+                        rebuilt = forced = True
+                        # the emulator drops to text mode; which width is configuration, read from the display
+                        screen_now, width_now = 0, A.display.mode.width
+                if rebuilt:
+                    lay = layout_for(adapter, screen_now, width_now)
+                    np = len(A.display.pages)
+                    mode_name = A.display.mode.name
+                    modetag = '%s/%d/%d' % (adapter, screen_now, width_now)
+                    orc = Oracle(lay, np)          # read plane 0, all planes writable
+                    cur = Screen(lay, A.session)   # set-up: the new pages are taken as they are
+                    d_ab = cur.diff(Screen(lay, B.session))
+                    if d_ab:
+                        fail('twins-differ-after-mode-switch', step, d_ab)
+                    ctx.count('switch:rebuilt')
+                else:
+                    ctx.count('switch:same-mode')
+                m('%s:%s:%d' % ('Z' if forced else 'X', A.display.mode.name, len(A.display.pages)))
             elif kind in 'PM':
                 v = op[1]
                 for R_ in (A, B):
@@ -655,6 +719,8 @@ def run_history(ctx, cfg, ops, use_model=True, label=''):
             if failed:
                 break
         # the visible page through the public API
+        if not failed:
+            A.run(b'SCREEN ,,0,0')
         if failed:
             pass
         elif lay.kind != 'text':
@@ -666,7 +732,7 @@ def run_history(ctx, cfg, ops, use_model=True, label=''):
             if [b''.join(r) for r in pub] != [bytes(r) for r in cur.rows[0]]:
                 fail('get-chars-differs-from-page-buffer', len(ops) - 1, 'Session.get_chars() != page 0 buffer')
         if use_model and mlines:
-            line = 'hist %s %d %s' % (mode_name, np, ';'.join(mlines))
+            line = 'hist %s %d %s' % (first_mode, first_np, ';'.join(mlines))
             replies = ctx.model([line])
             if replies is not None:
                 impl = 'ok ' + ';'.join(mouts)
@@ -762,6 +828,131 @@ def plane_sweep_history(cfg, lay, np, rng):
     ops.append(['M', 255])
     ops.append(['P', 0])
     return ops
+
+
+def visit_ops(adapter, screen, width, rng, quiet, wide_pages=False):
+    """operations of one visit to a mode inside a mode-switch history"""
+    lay = layout_for(adapter, screen, width)
+    ops = []
+    if lay.kind == 'text':
+        n = rng.randrange(2, 12)
+        ops.append(['W', 0, rng.randrange(0, 23), rng.randrange(0, lay.cols - n - 1), rng.randrange(0, 32),
+                    rng.randrange(0, 8), ''.join(rng.choice('ABCxyz0189#+-') for _ in range(n))])
+        bpr = 2 * lay.cols
+    else:
+        if lay.kind == 'packed':
+            maxc = (1 << lay.bpp) - 1
+        else:
+            maxc = 3 if lay.kind == 'tandy6' or lay.screen == 10 or adapter == 'ega64k' else 15
+        x0, y0 = rng.randrange(0, 40), rng.randrange(0, 8)
+        ops.append(['R', 0, x0, y0, x0 + rng.randrange(8, 200), y0 + rng.randrange(0, 6), rng.randrange(1, maxc + 1)])
+        bpr = lay.bpr
+    if quiet:
+        return ops      # no access to video memory at all during this visit
+    top = min(4, max(1, (0xC0000 - lay.base) // lay.page_size))
+
+    def addr():
+        page = rng.randrange(top) if wide_pages and rng.random() < 0.7 else 0
+        return lay.base + page * lay.page_size + rng.choice([0, 1, 2, bpr, bpr + 1, 3 * bpr + 5, rng.randrange(0, 8 * bpr)])
+
+    def some_access(k):
+        for _ in range(k):
+            c = rng.random()
+            a = addr()
+            if c < 0.3:
+                ops.append(['k', a])
+            elif c < 0.6:
+                ops.append(['p', a, rng.choice([0xff, 0x5a, 0xa5, 0x81, rng.randrange(256)])])
+            elif c < 0.8:
+                ops.append(['g', a, rng.randrange(1, 24)])
+            else:
+                ops.append(['s', a, bytes(rng.randrange(256) for _ in range(rng.randrange(1, 14))).hex()])
+    planar = lay.kind == 'planar'
+    if not planar or rng.random() < 0.7:
+        some_access(rng.randrange(2, 4))       # with the registers as the mode switch left them
+    if planar:
+        ops.append(['M', rng.choice([1, 2, 4, 8, 3, 5, 6, 10, 12])])
+        ops.append(['P', rng.choice([1, 2, 3])])
+        some_access(rng.randrange(2, 4))
+    k = rng.random()
+    if k < 0.35:
+        ops.append(['V', rng.randrange(0, 2), rng.randrange(0, 2)])     # SCREEN n,,a,v in mode n
+        some_access(2)
+    elif k < 0.6:
+        ops.append(['X', screen, width])                                 # SCREEN n in mode n
+        some_access(2)
+    return ops
+
+
+def switch_history(adapter, modes, home, rng, clear=False):
+    """a history that leaves and re-enters modes: home mode used, left for a quiet visit elsewhere (no video memory
+    access there), re-entered; then other modes with access in between; WIDTH changes; optional CLEAR ,,,n"""
+    others = [md for md in modes if md != home]
+    texts = [md for md in modes if md[0] == 0]
+    ops = visit_ops(adapter, home[0], home[1], rng, False, clear)
+    sizes = [32768, 65536, 98304, 131072, 262144]
+    for rnd in range(3):
+        away = rng.choice(texts if rng.random() < 0.6 else others)
+        quiet = rnd == 0 or rng.random() < 0.5
+        if clear and rng.random() < 0.8:
+            ops.append(['C', rng.choice(sizes)])                          # drops to text mode
+            if rng.random() < 0.5:
+                ops.append(['X', away[0], away[1]])
+                ops += visit_ops(adapter, away[0], away[1], rng, quiet, clear)
+        else:
+            ops.append(['X', away[0], away[1]])
+            ops += visit_ops(adapter, away[0], away[1], rng, quiet, clear)
+            if away[0] == 0 and rng.random() < 0.4:
+                w2 = 40 if away[1] == 80 else 80
+                ops.append(['X', 0, w2])                                   # WIDTH change in text mode
+                ops += visit_ops(adapter, 0, w2, rng, rng.random() < 0.5, clear)
+        ops.append(['X', home[0], home[1]])
+        ops += visit_ops(adapter, home[0], home[1], rng, False, clear)
+    return ops
+
+
+SWITCH_FAMILIES = [
+    # label, Session keywords, modes, CLEAR ,,,n available
+    ('ega', dict(video='ega'), TEXT + [(1, 0), (2, 0), (7, 0), (8, 0), (9, 0)], False),
+    ('vga', dict(video='vga'), TEXT + [(1, 0), (2, 0), (7, 0), (8, 0), (9, 0)], False),
+    ('ega64k', dict(video='ega', video_memory=65536), TEXT + [(1, 0), (2, 0), (7, 0), (8, 0), (9, 0)], False),
+    ('egamono', dict(video='ega', monitor='mono'), TEXT + [(10, 0)], False),
+    ('tandy', dict(video='tandy', syntax='tandy'), TEXT + [(1, 0), (2, 0), (3, 0), (4, 0), (5, 0), (6, 0)], True),
+    ('pcjr', dict(video='pcjr', syntax='pcjr'), TEXT + [(1, 0), (2, 0), (3, 0), (4, 0), (5, 0), (6, 0)], True),
+    ('cga', dict(video='cga'), TEXT + [(1, 0), (2, 0)], False),
+    ('hercules', dict(video='hercules', monitor='mono'), TEXT + [(3, 0)], False),
+    ('olivetti', dict(video='olivetti'), TEXT + [(1, 0), (2, 0), (3, 0)], False),
+]
+
+
+def switch_part(ctx):
+    t0 = time.time()
+    try:
+        _switch_part(ctx)
+    finally:
+        ctx.notes['mode_switch_part_s'] = round(time.time() - t0, 1)
+
+
+def _switch_part(ctx):
+    """mode-switch histories: every planar home mode in the thorough tier, a seed-rotated one per adapter family in
+    the quick tier"""
+    rng = ctx.rng
+    for fi, (adapter, kw, modes, clear) in enumerate(SWITCH_FAMILIES):
+        graphics = [md for md in modes if md[0] != 0]
+        stateful = [md for md in graphics if md[0] >= 7] if adapter in EGA_FAMILY else \
+            ([md for md in graphics if md[0] in (5, 6, 1)] if clear else graphics)
+        if ctx.quick:
+            if not (adapter in EGA_FAMILY or clear):
+                continue
+            homes = [stateful[(ctx.seed + fi) % len(stateful)]]
+        else:
+            homes = stateful + [rng.choice(modes)]
+        for home in homes:
+            for h in range(1 if ctx.quick else 2):
+                ops = switch_history(adapter, modes, home, rng, clear)
+                run_history(ctx, (adapter, kw, home[0], home[1]), ops, use_model=True,
+                            label='%s mode switches from SCREEN %d' % (adapter, home[0]))
+                ctx.count('mode-switch-histories')
 
 
 def edge_differential(ctx, cfg):
@@ -878,6 +1069,7 @@ def run(ctx):
                 run_history(ctx, cfg, plane_sweep_history(cfg, lay, np, rng), use_model=True,
                             label='%s/%d plane sweep' % (adapter, screen))
                 ctx.count('plane-sweep-histories')
+    switch_part(ctx)
     screen10_bit0(ctx)
     ctx.notes['configurations'] = len(configs)
 
